@@ -23,6 +23,24 @@ CHECKS = {
         technique=TECH,
     ),
 }
+CHECKS["C10"] = dict(
+    text=("For each limit kind CBMC decides, over every value of the limit and of the loop's counters, that the call the search loop makes before "
+          "every pop returns the explicit 'terminated' error exactly when the documented predicate holds (iterations+1 > limit; tree size > limit; "
+          "clock beyond the budget on a scheduled check, with the clock a symbolic monotone variable), never the internal 'unable to explain' error, "
+          "never a panic; combined models are the disjunction; the predicate is monotone in the limit. Kernel-level: the loop itself is not encoded."),
+    design_ref="DESIGN.md section 4, C10",
+    note=("Trusted: Instant::now stub (arbitrary non-decreasing readings), fmt::format stub, Instant layout transmute. Not decided: that run_a_star consults the "
+          "predicate on every turn, identity of limited/unlimited results, error mapping of combined models (String join intractable)."),
+    technique=TECH,
+)
+CHECKS["C13"] = dict(
+    text=("CBMC decides for every f64 similarity value and threshold that the default accept-all setting classifies no alternative as too similar and that "
+          "threshold functions reject exactly value >= threshold (so accept-all accepts a superset), and for every k / solution size that no stop rule fires "
+          "before k routes were found. Kernel-level only: the two ksp drivers are not encoded."),
+    design_ref="DESIGN.md section 4, C13",
+    note=("Not decided: number, distinctness, ordering, loop-freeness of returned routes, termination of the drivers (Yen's loop), error propagation from spur searches."),
+    technique=TECH,
+)
 NOT_APPLICABLE = {
     "C01": "not built yet (planned: backtrack / orientation kernels, DESIGN section 4)",
     "C02": "optimality quantifies over all paths of all graphs and the haversine estimate; the search loop could not be encoded (four encodings, no verdict in 19-25 min) and trigonometric builtins are over-approximated by CBMC",
